@@ -26,6 +26,12 @@
 //!                             record counter (and embedded-reference id, MD5 flag) of every container header and
 //!                             slice header as read by the independent walker (model: NV.CramRec.SliceHeader),
 //!                             see shared/c07_shdr.rs
+//!   file rps refs recs        a stream of records cut into slices of rps records through the real writer and reader:
+//!                             obs = slice layout of the file + every column of every record read back
+//!                             (model: NV.CramRec.File.file_rt / file_layout / rec_cigar / rec_bases), see shared/c07_file.rs
+//!   mdist refs recs links     HOSTILE mate distances: a written slice whose CF bits / NF values are replaced
+//!                             (CRC-sealed) through the real reader's read_mate / resolve_mates: obs = mate columns
+//!                             or ReadErr (model: NV.CramRec.File.mdist_rt), see shared/c07_mdist.rs
 
 use std::{collections::HashMap, io::Read as _, panic::AssertUnwindSafe};
 
@@ -1205,7 +1211,26 @@ fn run_feat(c: &Case) -> Obs {
         let want_c = norm_cigar(&cig_in);
         match obs.split_once(' ') {
             Some((cg, sq)) if cg == want_c && unhex(sq).eq_ignore_ascii_case(&seq) => Ok(()),
-            _ => fail("feat-roundtrip", format!("cigar {cig_in} seq {} -> {obs}", hex(&seq))),
+            _ => {
+                // a NUL byte among the bases of a soft clip, or of an insertion of two or more bases:
+                // those bases travel in a NUL-terminated byte array series (SC / IN)
+                let mut p = 0usize;
+                let mut nul = false;
+                for op in &ops {
+                    if op.kind().consumes_read() {
+                        let e = (p + op.len()).min(seq.len());
+                        let arr = op.kind() == Kind::SoftClip || (op.kind() == Kind::Insertion && op.len() >= 2);
+                        if arr && p < e && seq[p..e].contains(&0) {
+                            nul = true;
+                        }
+                        p += op.len();
+                    }
+                }
+                fail(
+                    if nul { "cram-clip-or-insertion-base-nul-byte-cuts-feature" } else { "feat-roundtrip" },
+                    format!("cigar {cig_in} seq {} -> {obs}", hex(&seq)),
+                )
+            }
         }
     } else {
         Ok(())
@@ -1296,6 +1321,12 @@ mod shdr;
 #[path = "../shared/c07_big.rs"]
 mod big;
 
+#[path = "../shared/c07_file.rs"]
+mod cfile;
+
+#[path = "../shared/c07_mdist.rs"]
+mod c07_mdist;
+
 fn generate(rng: &mut Rng, tier: &str, w: &mut CaseWriter) {
     cgen::generate(rng, tier, w);
     let n_mates = if tier == "thorough" { 15000 } else { 700 };
@@ -1307,6 +1338,14 @@ fn generate(rng: &mut Rng, tier: &str, w: &mut CaseWriter) {
         shdr::push_shdr(rng, w);
     }
     big::push_big(rng, tier, w);
+    let n_file = if tier == "thorough" { 10000 } else { 500 };
+    for _ in 0..n_file {
+        cfile::push_file(rng, w);
+    }
+    let n_mdist = if tier == "thorough" { 10000 } else { 500 };
+    for _ in 0..n_mdist {
+        c07_mdist::push_mdist(rng, w);
+    }
 }
 
 fn run(c: &Case) -> Obs {
@@ -1317,6 +1356,8 @@ fn run(c: &Case) -> Obs {
         "mates" => mates::run_mates(c),
         "shdr" => shdr::run_shdr(c),
         "big" => big::run_big(c),
+        "file" => cfile::run_file(c),
+        "mdist" => c07_mdist::run_mdist(c),
         k => Obs::fail("-", "harness-unknown-kind", k),
     }
 }
